@@ -621,8 +621,18 @@ func TestEndToEndDataIsNotTagText(t *testing.T) {
 			t.Fatalf("HARNESS: the observing post-processor did not see the point")
 		}
 		exp := ts.expected()
-		if _, stated := exp["Required"]; !stated && len(spy.args["Required"]) == 0 {
-			delete(spy.args, "Required") // the scanner marks points without a required argument as required (no items): not an argument of the tag
+		if _, stated := exp["Required"]; !stated {
+			// the scanner marks points without a required argument as required - with no items, or with "true": its own
+			// default, not an argument of the tag (what matters is that it does not make the point optional)
+			optionalNow := false
+			for _, it := range spy.args["Required"] {
+				if it == "false" {
+					optionalNow = true
+				}
+			}
+			if !optionalNow {
+				delete(spy.args, "Required")
+			}
 		}
 		if len(exp) != len(spy.args) {
 			t.Fatalf("C19: %s:%q with c19.text=%q: after processing the point carries arguments %v, its tag states %v", tagKey, tag, text, spy.args, exp)
